@@ -843,7 +843,7 @@ pub fn run_c10<H: HB>(tier: Tier) -> Outcome {
     let prop = "C10";
     let mut out = Outcome::new();
     let q = tier == Tier::Quick;
-    let fault_alpha = A_CORE | A_BULK | A_CLONE | A_BORROWED | A_ITER_MUT_BACK | A_ITER_MUT_FORGET | A_DRAIN_FORGET | A_CAPACITY;
+    let fault_alpha = A_CORE | A_BULK | A_CLONE | A_BORROWED | A_ITER_MUT_BACK | A_ITER_MUT_FORGET | A_DRAIN_FORGET | A_CAPACITY | A_CONSUME;
     let cont_alpha = A_PUSH | A_CHANGE | A_REMOVE | A_POP | A_POP_IF | A_RETAIN | A_ITER_MUT | A_EXTEND | A_APPEND | A_CLEAR_DRAIN | A_CLONE | A_CONVERT | A_CAPACITY;
     let mut layers: Vec<(String, Cfg, Vec<(bool, Root)>, Option<u64>, Cfg)> = vec![];
     for (k, m) in if q { vec![(3u32, 3usize)] } else { vec![(3, 3), (4, 2)] } {
